@@ -59,6 +59,11 @@ def main():
         json.dump(prev, open(out, "w"), indent=1)
     finally:
         shutil.rmtree(scratch, ignore_errors=True)
+        # the W1 translators wrote coq/theories/*/gen/*.v from the SEEDED tree: regenerate them from /repo so
+        # that nothing stale is left behind for tools that read the build directory without running a check (coqchk)
+        env = {k: v for k, v in os.environ.items() if k not in ("CATII_REPO", "VERIF_OUT")}
+        subprocess.run(["/venv/bin/python", "-c", "from harness import setup; setup.regenerate()"], cwd=VERIF, env=env,
+                       stdout=subprocess.DEVNULL, stderr=subprocess.DEVNULL)
 
 
 if __name__ == "__main__":
